@@ -27,6 +27,7 @@ let show_tok = function
   | TB v -> Printf.sprintf "b%02x" (int_of_n v)
   | TW v -> Printf.sprintf "w%04x" (int_of_n v)
   | TD v -> Printf.sprintf "d%08x" (int_of_n v)
+  | TQ v -> Printf.sprintf "q%016x" (int_of_n v)
   | TN v -> Printf.sprintf "n%d" (int_of_n v)
   | TR l -> "r" ^ hex_of_bytes l
 let rec split_bar acc = function
@@ -41,10 +42,25 @@ let rdx code rest =
   let e = (match c04_rd_eq (nn code) a bb with Some x -> sb x | None -> "?") in
   let c = (match c04_rd_ccmp (nn code) a bb with Ok c -> str_cmp c | _ -> "Panic") in
   let h = c04_rd_hash (nn code) a in
-  e ^ " " ^ c ^ " " ^ (if h = [] then "-" else String.concat "," (List.map show_tok h))
+  let oc = function Some c -> str_cmp c | None -> "None" in
+  e ^ " " ^ c ^ " " ^ oc (c04_rd_cmp (nn code) a bb) ^ " " ^ oc (c04_rd_partial (nn code) a bb) ^ " " ^ oc (c04_rd_ccmp_steps (nn code) a bb)
+    ^ " " ^ (if h = [] then "-" else String.concat "," (List.map show_tok h))
 let mkh o t c l r = { h_owner = labels_of_wire (b o); h_rtype = nn t; h_class = nn c; h_ttl = nn l; h_rdlen = nn r }
+(* self-describing values: <letter>:<value> *)
+let fval_tagged (t : string) : fval =
+  let v = String.sub t 2 (String.length t - 2) in
+  match t.[0] with
+  | 'b' -> VU8 (nn v) | 'w' -> VU16 (nn v) | 'd' -> VU32 (nn v) | 'q' -> VU48 (nn v)
+  | 'n' -> VNameRaw (labels_of_wire (b v)) | 's' -> VStr (b v) | 'o' -> VOcts (b v)
+  | '4' -> VAddr4 (b v) | '6' -> VAddr16 (b v) | 'l' -> VOcts16 (b v)
+  | _ -> failwith "bad value tag"
+let un k w = if k = "abs" then UAbs (b w) else URel (b w)
 let handle = function
   | "rdx" :: code :: rest -> rdx code rest
+  | "rdh" :: code :: rest ->
+      let h = c04_rdh (nn code) (List.map fval_tagged rest) in String.concat "," (List.map show_tok h)
+  | ["ueq"; k1; w1; k2; w2] -> ob (c04_uncertain_eq (un k1 w1) (un k2 w2))
+  | ["uhash"; k1; w1] -> oh (c04_uncertain_hash (un k1 w1))
   | ["psuf"; m; p; k; y] ->
       (match c04_parsed_suffix (b m) (nn p) (nat_of_int (int_of_string k)) (b y) with
        | Ok ((((e, c), cc), lc), h) -> "Ok " ^ sb e ^ " " ^ str_cmp c ^ " " ^ str_cmp cc ^ " " ^ str_cmp lc ^ " " ^ hex_of_bytes h
